@@ -11,18 +11,18 @@ ENGINE_F = "F-fault-point-enumeration"
 # id -> (engine, category, technique, level text, level note, design ref)
 CHECKS = {
  "C01": (ENGINE_A, "model_checking",
-   "stateless model checking of the real Ingester (WAL on tmpfs): exhaustive DFS over schedules of 2 writers + flush timer at store-request / catalog-call / pause-point granularity with bounded preemptions, injected upload/registration errors (before/after effect) and one crash + restart placed at every quiescent point",
-   "Real Ingester with WalSyncMode::EveryWrite, flush_row_count 2: 3 single-row writes from 2 writers + timer tick; plans: every single (thorough: double) fault position x 1 preemption; every crash point x 2 (3) preemptions incl. crash during recovery-free restart; fault + crash; thorough adds all pause points, schema change (flush-before-append), a write after restart and rotate-on-every-entry. Oracle after a fault-free final flush through the shutdown path: every id whose write() returned Ok is in a catalogued chunk (decoded from the raw store).",
+   "stateless model checking of the real Ingester (WAL on tmpfs): exhaustive DFS over schedules of 2 writers + flush timer at store-request / catalog-call / pause-point granularity with bounded preemptions, injected upload/registration errors (before/after effect) and up to two crash + restart rounds placed at every quiescent point",
+   "Real Ingester with WalSyncMode::EveryWrite, flush_row_count 2: 3 single-row writes from 2 writers + timer tick; plans: every single (thorough: double) fault position x 1 preemption; every crash point x 2 (3) preemptions; fault + crash; crash - restart - crash (two crashes placed anywhere, recovery itself may be crashed, a write after the first restart) over a multi-segment WAL (rotation on every entry; threshold 3); thorough adds all pause points, schema change (flush-before-append), two faults + crash, two writers with two crashes. Oracle after a fault-free final flush through the shutdown path: every id whose write() returned Ok is in a catalogued chunk (decoded from the raw store).",
    "a write that returned is durable (sync on every write, tmpfs); crash points are the quiescent points of the scheduler (tasks parked at gates; in-flight file operations complete first); torn WAL writes are C05's subject",
    "DESIGN.md section 5 C01"),
  "C02": (ENGINE_A, "model_checking",
    "stateless model checking of the real code: exhaustive DFS over all interleavings of 2-3 catalog clients at object-store-request granularity, with state caching; linearizability oracle by brute force",
-   "Every interleaving (2 clients: unbounded; 3 clients: preemption-bounded) of the real ObjectStoreMetadataClient mutation paths, incl. create races, legacy-fallback reads, conflict/retry and retry exhaustion; every catalog version checked for chunk-map/time-index agreement; final state must equal a real-time-consistent sequential order of exactly the Ok operations.",
+   "Every interleaving (2 clients: unbounded; 3 clients: preemption-bounded) of the real ObjectStoreMetadataClient mutation paths (register, delete, complete_compaction, complete_compaction_with_target), incl. create races, legacy-fallback reads, conflict/retry and retry exhaustion: 12-20 hand-written race programs plus the generated family of every unordered pair of client programs of 1..=2 operations over an 8-operation alphabet (quick: all 1-vs-1 and 1-vs-2 pairs and every 3rd 2-vs-2 pair, ~1.3 k programs / 50 k executions; thorough: all 2.6 k pairs); every catalog version checked for chunk-map/time-index agreement; final state must equal a real-time-consistent sequential order of exactly the Ok operations.",
    "InMemory object store's conditional PUT is atomic; one request = one atomic step; tokio back-off timers fire eagerly (no shared-state access between wake-up and next request)",
    "DESIGN.md section 5 C02"),
  "C03": (ENGINE_A, "model_checking",
    "stateless model checking of the real Compactor: exhaustive DFS over schedules of 1-2 compactor nodes at object-store-request / catalog-call granularity with preemption bound, plus one crash, injected error (before/after effect) or lease expiry placed at every point",
-   "Real Compactor::run_compaction_cycle over real Parquet chunks (rows carry unique ids) on both catalog back ends: one compactor x every single fault position x {before, after}; one/two compactors x every crash point (restart runs a fresh cycle); two compactors x all interleavings within 2 (3) preemptions, x lease expiry (+301 s) anywhere. After EVERY transition: nothing queryable became unqueryable and every listed object exists; at the end: reachable id multiset == original, each once; merged chunk level = max(replaced)+1, levels never decrease.",
+   "Real Compactor::run_compaction_cycle over real Parquet chunks (rows carry unique ids) on both catalog back ends: one compactor x every single fault position x {before, after}; one/two compactors x every crash point (restart runs a fresh cycle); two compactors x all interleavings within 2 (3) preemptions, x lease expiry (+301 s) anywhere; datasets incl. a chunk straddling an hour boundary and L0+L1 chunks over several hours in two cycles. After EVERY transition: nothing queryable became unqueryable and every listed object exists; at the end: reachable id multiset == original, each once, every row found by a point lookup of its own timestamp through the time index; merged chunk level = max(replaced)+1, levels never decrease; epilogue of every execution: the grace period passes, every live compactor runs one more cycle, every listed object must still exist and the rows must still be the original ones.",
    "duplicates tolerated while a compaction is in flight; crash = abort at a quiescent point; the lease-renewal task gets a horizon of 1 request per execution; no state caching (tasks share memory the fingerprint cannot see)",
    "DESIGN.md section 5 C03"),
  "C04": (ENGINE_C, "exploration",
@@ -37,17 +37,17 @@ CHECKS = {
    "DESIGN.md section 5 C05"),
  "C06": (ENGINE_A, "model_checking",
    "stateless model checking of the real Ingester without faults (exhaustive DFS over writer/timer schedules within a preemption bound) plus bounded-exhaustive enumeration of batch shapes x thresholds",
-   "Every schedule within 2 (3) preemptions of 2-3 writers with alternating schemas + flush timer + a legacy and a topic subscriber; after the shutdown flush: stored rows == accepted rows as multisets with bit-equal values, each catalog entry's row_count/min/max equal the decoded truth, each chunk announced to each subscriber exactly once. Input part: 2.5k shape x threshold combinations (timestamp types, extremes, NaN/inf/-0.0, null labels, row/byte thresholds, BufferFull).",
+   "Every schedule within 2 (3) preemptions of 2-3 writers with alternating schemas + flush timer + a legacy and a topic subscriber; plus plans in which byte-identical rows are written several times; after the shutdown flush: stored rows == accepted rows as multisets with bit-equal values, each catalog entry's row_count/min/max equal the decoded truth, each chunk announced to each subscriber exactly once. Input part: 2.5k shape x threshold combinations (timestamp types, extremes, NaN/inf/-0.0, null labels, row/byte thresholds, BufferFull).",
    "fault-free; subscribers keep up with the channel",
    "DESIGN.md section 5 C06"),
  "C07": (ENGINE_B, "model_checking",
    "explicit-state enumeration of all operation histories up to a depth, executed in lock-step on both real metadata back ends, every boundary query range compared with a reference interval map",
-   "Every history of depth <=3 (quick; 4 with a reduced alphabet in thorough) over register (3 paths x 9-11 intervals incl. hour boundaries +-1 ns, negative, zero-length, multi-day, re-registration), delete, complete_compaction (known / unknown target) on LocalMetadataClient and ObjectStoreMetadataClient in lock-step plus a fresh object-store client; after each history all ordered pairs of ~40 boundary points are queried (inverted ranges included, judged leniently).",
+   "Every history of depth <=3 (quick; 4 with a reduced alphabet in thorough) over register (3 paths x 9-11 intervals incl. hour boundaries +-1 ns, negative, zero-length, multi-day, re-registration), delete, complete_compaction (known / unknown target), complete_compaction_with_target (merged chunk covering 1-3 hour buckets or straddling the epoch) on LocalMetadataClient and ObjectStoreMetadataClient in lock-step plus a fresh object-store client; after each history all ordered pairs of ~40 boundary points are queried (inverted ranges included, judged leniently).",
    "the answer for an inverted range is only required to be panic-free, error-free, duplicate-free and inside the overlap formula; no deduplication of histories",
    "DESIGN.md section 5 C07"),
  "C08": (ENGINE_A, "model_checking",
    "stateless model checking of the real code: exhaustive DFS over all interleavings of 2-3 nodes' lease operations at object-store-request granularity, wall-clock jumps as extra transitions, state caching",
-   "Every interleaving of acquire/renew/complete/fail/scavenge by 2 nodes (3 in thorough, preemption-bounded) combined with every placement of <=2 (3) wall-clock jumps (+150 s, +301 s); invariants at every quiescent state: no lease-file version holds two live leases sharing a chunk, no two holders believe they hold a shared chunk, a reclaimed holder's renew is refused, abandoned leases are acquirable after expiry; also on the in-memory client at call granularity.",
+   "Every interleaving of acquire/renew/complete/fail/scavenge by 2 nodes (3 in thorough, preemption-bounded) combined with every placement of <=2 (3) wall-clock jumps (+150 s, +301 s); invariants at every quiescent state: no lease-file version holds two live leases sharing a chunk, no two holders believe they hold a shared chunk, a reclaimed holder's renew is refused, abandoned leases are acquirable after expiry; also on the in-memory client at call granularity. Besides the hand-written programs: the generated family of every unordered pair of node programs of 1..=2 (thorough 3) lease operations (acquire over overlapping chunk sets, renew, complete, fail, scavenge) with the clock jumps placed anywhere.",
    "all nodes read the same interposed wall clock; InMemory conditional PUT is atomic; holder belief after renew = wall clock at the renew call + 300 s (what the caller can know)",
    "DESIGN.md section 5 C08"),
  "C14": (ENGINE_F, "fault_enumeration",
@@ -57,7 +57,7 @@ CHECKS = {
    "DESIGN.md section 5 C14"),
  "C15": (ENGINE_C, "exploration",
    "bounded-exhaustive input enumeration against a reference: the real Ingester::write under split states installed through the real MetadataClient, decoded new-shard chunks compared with the accepted rows; QueryNode::query compared with the same SQL over a MemTable of each accepted row once; the de-duplication routine run on every bounded input",
-   "Routing: {in-memory, object-store catalog} x {Int64, Timestamp(ns)} x split points x 7 phase settings x all write histories of 1 write of <=3 rows over 12 (36) row values or 2 writes over ts {split-1, split, split+1} x metric x host x value: every accepted row in exactly one new shard on its side (split point to the upper shard), nothing outside DualWrite/Backfill. Reads: multisets of <=2 (3) rows + mixed-metric and two-write histories x 11 (19) queries incl. aggregates, judged after a flush in DualWrite/Backfill; a lifecycle walk through all phases; dedup routine on <=3 (4) rows x <=2 batches x Int64/Timestamp x Utf8/Utf8View. The routing half holds; the read half fails on four recorded causes (C15-F1..F4).",
+   "Routing: {in-memory, object-store catalog} x {Int64, Timestamp(ns)} x split points x 7 phase settings x all write histories of 1 write of <=3 rows over 12 (36) row values or 2 writes over ts {split-1, split, split+1} x metric x host x value: every accepted row in exactly one new shard on its side (split point to the upper shard), nothing outside DualWrite/Backfill. Reads: multisets of <=2 (3) rows + mixed-metric and two-write histories x 11 (19) queries incl. aggregates, judged after a flush in DualWrite/Backfill; a lifecycle walk through all phases; dedup routine on <=3 (4) rows x <=2 batches x Int64/Timestamp x Utf8/Utf8View. Both halves hold since the repair of the read half (c775b7b); the de-duplication routine, no longer on any query path, is exercised on every bounded input as an observation only.",
    "a batch's shard is the one the ingester derives from its first row; Timestamp-typed writes rejected by dual-write are counted, not judged; fresh query node per check; DataFusion is evaluator and reference; frozen clock and entropy",
    "DESIGN.md section 5 C15"),
  "C16": (ENGINE_B, "model_checking",
@@ -82,17 +82,17 @@ CHECKS = {
    "DESIGN.md section 5 C19"),
  "C20": (ENGINE_B, "model_checking",
    "explicit enumeration of every initial catalog x configuration of a bounded family, each driven through repeated real compaction cycles with the invariant checked between cycles",
-   "All catalogs with 0..3/2/2/1 (thorough 0..4/3/4/3) chunks at L0 hour A / L0 hour B / L1 / L2 x merge threshold {2,3} x level target size {1 B, ~2 chunks, ~100 chunks} x max_levels {2,4} x both back ends: a fixed point is reached within 8 cycles, candidate groups offered before each cycle are pairwise disjoint and level-homogeneous, groups actually merged (leases) are disjoint and of the lease's level, every level equals max(replaced)+1 or stays, rows conserved.",
+   "All catalogs with 0..3/2/2/1 (thorough 0..4/3/4/3) chunks at L0 hour A / L0 hour B / L1 / L2 x merge threshold {2,3} x level target size {1 B, ~2 chunks, ~100 chunks} x max_levels {2,4} x both back ends, plus variants with 0..2 L0 chunks in the next hour and an L0 chunk straddling that hour boundary: a fixed point is reached within 8 cycles, every row is found by a point lookup of its timestamp after every cycle, candidate groups offered before each cycle are pairwise disjoint and level-homogeneous, groups actually merged (leases) are disjoint and of the lease's level, every level equals max(replaced)+1 or stays, rows conserved.",
    "one compactor, fault-free, frozen clock; in-memory levels tracked from observed merges",
    "DESIGN.md section 5 C20"),
  "C09": (ENGINE_B, "model_checking",
    "explicit-state search over histories of the real Compactor (cycle / clock / pin / unpin / restart) with every physical DELETE and retention removal judged against catalog history, grace, pins and cut-off; plus stateless model checking of all schedules of a GC pass against a pinning query",
-   "(a) all histories up to depth 4 (quick) / 6 (thorough) over {compaction cycle, clock +100 s/+301 s/+1 day, pin(2 sets), unpin, restart via Compactor::run} on both catalog back ends with grace 0/300 s and retention 1 day over a dataset with chunks inside the window, older than, straddling the cut-off and with negative timestamps; from every state the persisted pending deletions must be carried out after clock-past-grace + restart. (b) every schedule within 2 (3) preemptions of run_compaction_cycle vs QueryNode::query sharing a ChunkPinRegistry, catalog calls and store requests as scheduling points, grace 0/30/300 s: no DELETE is sent while the chunk is pinned.",
+   "(a) all histories up to depth 4 (quick) / 6 (thorough) over {compaction cycle, a cycle during which the catalog commit / the merged upload / the lease completion fails (before or after taking effect), clock +100 s/+301 s/+1 day, pin(2 sets), unpin, restart via Compactor::run} on both catalog back ends with grace 0/300 s and retention 1 day over a dataset with chunks inside the window, older than, straddling the cut-off and with negative timestamps; from every state every deletion that was ever persisted at the end of a cycle must be carried out after unpin + clock-past-grace + restart. (b) every schedule within 2 (3) preemptions of run_compaction_cycle vs QueryNode::query sharing a ChunkPinRegistry, catalog calls and store requests as scheduling points, grace 0/30/300 s: no DELETE is sent while the chunk is pinned.",
    "wall and monotonic clocks advance together; the harness is the only other source of catalog changes; quick tier does not make the query's chunk-data reads scheduling points",
    "DESIGN.md section 5 C09"),
  "C10": (ENGINE_A, "model_checking",
    "stateless model checking of the real QueryNode: exhaustive DFS over all interleavings of 2-3 queries at catalog-call and registration/planning pause-point granularity, each result compared with the same query run alone",
-   "One QueryNode over chunks in disjoint hours; 2 queries (rows, aggregates), a query against the historical phase of StreamingQueryExecutor::execute, thorough: 3 queries with two tenants and two streaming subscriptions; all interleavings (3 queries: 4 preemptions) of catalog calls and the pause points before registration and after planning; every result must equal the result of the same query alone on a fresh node.",
+   "One QueryNode over chunks in disjoint hours, cold or after having served other queries (non-initial table binding), with and without adaptive indexing; 2 queries (rows, aggregates) over disjoint / overlapping / subset / empty chunk selections, one of them possibly selecting the set bound last, a query against the historical phase of StreamingQueryExecutor::execute, 3 queries of which the third repeats the first; thorough: two tenants, two streaming subscriptions, three queries on a warm node; all interleavings (3 queries: 4 preemptions) of catalog calls and the pause points before registration and after planning; every result must equal the result of the same query alone on a fresh node.",
    "DataFusion-internal waits resolve inside one step on the single-threaded runtime, so the interleaving granularity is register / plan / execute; queries use Int64 timestamps with integer literals",
    "DESIGN.md section 5 C10"),
  "C11": (ENGINE_B, "model_checking",
@@ -107,7 +107,7 @@ CHECKS = {
    "DESIGN.md section 5 C12"),
  "C13": (ENGINE_A, "model_checking",
    "stateless model checking of the real code: exhaustive DFS over all interleavings of 2-3 nodes' shard-metadata updates/creations at object-store-request granularity with state caching; plus exhaustive update histories of the router cache",
-   "Every interleaving of 1-2 update_shard_metadata calls per node (expected generation equal, stale, ahead; shard absent or at generation 2) on the object-store client (request granularity) and the in-memory client (call granularity); oracle: one winner per base generation, generations form the chain g0+1.., every version ever written carries the next generation, stored content belongs to the last winner; ShardRouter: all update sequences up to depth 5/7 never lower the cached generation.",
+   "Every interleaving of 1-2 update_shard_metadata calls per node (expected generation equal, stale, ahead; shard absent or at generation 2) on the object-store client (request granularity) and the in-memory client (call granularity), hand-written programs plus the generated family of every unordered pair (thorough: also triple) of client programs of 1..=2 (3) updates with expected generations g0-1 ..= g0+2 from "absent" and from generation 2; oracle: one winner per base generation, generations form the chain g0+1.., every version ever written carries the next generation, stored content belongs to the last winner; ShardRouter: all update sequences up to depth 5/7 never lower the cached generation.",
    "InMemory conditional PUT is atomic; the in-memory client's synchronous check-then-insert window is not a scheduling point of a single-threaded scheduler (stated in DESIGN.md)",
    "DESIGN.md section 5 C13"),
 }
